@@ -9,7 +9,10 @@ An embedding is plain data:
    "before": n, "after": n, "inner_before": n, "inner_after": n,
    "inner": None | "if" | "try" | "with" | "for"  (python: one more block around the statements of a function-shaped example),
    "guard": None | "before" | "after"  (a complete script entry-point block at module level before / after the example),
-   "rename": None | "defs-only"  (python: copies get distinct function / class names but keep parameter and local names)}
+   "rename": None | "defs-only"  (python: copies get distinct function / class names but keep parameter and local names),
+   "style": one of STYLES - the SHAPE of the new identifier a renamed name gets from (old name, tag): snake suffix
+            (`result_x`, the default), camelCase suffix (`resultX`), PascalCase prefix (`XResult`), snake prefix (`x_result`),
+            upper case (`RESULT_X`), or an opaque fresh name unrelated to the old one (`qx3`). Leading underscores are kept.}
 """
 from __future__ import annotations
 
@@ -146,9 +149,47 @@ def py_bound_names(text: str, keep: str | None) -> set:
     return names
 
 
-def py_rename(text: str, names: set, tag: str) -> str:
+STYLES = ("snake", "camel", "pascal", "prefix", "upper", "opaque")
+
+
+def styled(name: str, tag: str, style: str, idx: int) -> str:
+    """The identifier `name` becomes under (tag, style). Leading underscores (privacy convention) are kept in place."""
+    core = name.lstrip("_")
+    lead = name[: len(name) - len(core)]
+    if not core:
+        return f"{name}_{tag}"
+    if style == "camel":
+        new = core + tag[0].upper() + tag[1:]
+    elif style == "pascal":
+        new = tag[0].upper() + tag[1:] + core[0].upper() + core[1:]
+    elif style == "prefix":
+        new = f"{tag}_{core}"
+    elif style == "upper":
+        new = f"{core}_{tag}".upper()
+    elif style == "opaque":
+        new = f"q{tag}{idx}"
+    else:
+        new = f"{core}_{tag}"
+    return lead + new
+
+
+def rename_map(text: str, names: set, tag: str, style: str | None) -> dict:
+    """old -> new for every name; falls back to the snake suffix when the styled names would not stay distinct from each
+    other or from an identifier the text already uses (a renaming must not merge two variables)."""
+    order = sorted(names)
+    words = set(re.findall(r"[A-Za-z_$][\w$]*", text))
+    for sty in (style or "snake", "snake"):
+        m = {n: styled(n, tag, sty, i) for i, n in enumerate(order)}
+        new = list(m.values())
+        if len(set(new)) == len(new) and not (set(new) & words):
+            return m
+    return m
+
+
+def py_rename(text: str, names: set, tag: str, style: str | None = None) -> str:
     if not names or not tag:
         return text
+    mp = rename_map(text, names, tag, style)
     try:
         toks = list(tokenize.generate_tokens(io.StringIO(text + "\n").readline))
     except (tokenize.TokenError, IndentationError, SyntaxError):
@@ -158,7 +199,7 @@ def py_rename(text: str, names: set, tag: str) -> str:
     prev = None
     for t in toks:
         if t.type == tokenize.NAME and t.string in names and not (prev is not None and prev.type == tokenize.OP and prev.string == "."):
-            edits.append((t.start[0] - 1, t.start[1], t.end[1], f"{t.string}_{tag}"))
+            edits.append((t.start[0] - 1, t.start[1], t.end[1], mp[t.string]))
         if t.type not in (tokenize.NL, tokenize.COMMENT):
             prev = t
     for row, a, b, new in sorted(edits, reverse=True):
@@ -245,16 +286,17 @@ def _ts_mask(text: str) -> str:
     return "".join(out)
 
 
-def ts_rename(text: str, names: set, tag: str) -> str:
+def ts_rename(text: str, names: set, tag: str, style: str | None = None) -> str:
     if not names or not tag:
         return text
+    mp = rename_map(text, names, tag, style)
     mask = _ts_mask(text)
     rx = re.compile(r"(?<![\w$.])(" + "|".join(sorted(map(re.escape, names), key=len, reverse=True)) + r")(?![\w$])")
     out = []
     last = 0
     for m in rx.finditer(mask):
-        out.append(text[last:m.end()])
-        out.append("_" + tag)
+        out.append(text[last:m.start()])
+        out.append(mp[m.group(1)])
         last = m.end()
     out.append(text[last:])
     return "".join(out)
@@ -439,7 +481,7 @@ def embed(unit: list, lang: str, emb: dict, keep: str | None = None, keep_header
     renamed_any = False
     for c in range(emb["k"]):
         tag = emb["tags"][c]
-        t = (py_rename(text, names, tag) if py else ts_rename(text, names, tag)) if tag else text
+        t = (py_rename(text, names, tag, emb.get("style")) if py else ts_rename(text, names, tag, emb.get("style"))) if tag else text
         renamed_any = renamed_any or t != text
         cl = t.split("\n")
         if len(cl) != len(core):
